@@ -85,6 +85,9 @@ def partial(t, dim, order=1, bounds=None, periodic=False):
     :return: a :class:`Tensor`
     """
 
+    if t.batch:
+        raise ValueError("Batched tensors are not supported.")
+
     if not hasattr(dim, "__len__"):
         dim = [dim]
     if bounds is None:
